@@ -727,6 +727,7 @@ static Plan cards_generate(uint64_t seed, const Tier &tier)
 	p.cfg["tap"] = g.chance(1, 2);
 	p.cfg["ell"] = (int64_t)g.below(3);
 	p.cfg["chunked"] = g.chance(1, 3);
+	{ Rng gm(derive(seed, 78)); p.cfg["minsz"] = gm.chance(1, 3) ? (int64_t)gm.below(1 << 24) : 0; } // importer minimum sizes per player (own stream)
 	p.cfg["nmax"] = g.chance(1, 6) ? (int64_t)g.range(9, 20) : (int64_t)g.range(2, 8);
 	int nops = (int)g.range(3, tier.thorough ? 14 : 9);
 	bool faults = tier.opt.count("nofaults") == 0;
@@ -815,14 +816,18 @@ static RunResult cards_execute(const Plan &plan)
 	{
 		W.S.single_party = (int)i;
 		std::istringstream gin(W.G->text);
-		if (W.G->kind == 2) W.P[i].vtmf.reset(new BarnettSmartVTMF_dlog_GroupQR(gin, W.G->fs, W.G->ss));
-		else W.P[i].vtmf.reset(new BarnettSmartVTMF_dlog(gin, W.G->fs, W.G->ss, W.G->kind == 1));
-		if (i == 0)
+		// the sizes an importer passes are minimum sizes: a player may run with smaller minima than the group
+		// was generated with (e.g. a 3072-bit group read by an instance with the default 2048-bit minimum)
+		unsigned msz = (unsigned)((plan.get("minsz", 0) >> (3 * i)) & 7);
+		unsigned long fs_i = W.G->fs - 64UL * (msz & 3), ss_i = W.G->ss - ((W.G->kind != 2 && (msz & 4)) ? 16UL : 0UL);
+		if (msz) W.res.cnt["probe.group_imported_with_smaller_minimum"]++;
+		if (W.G->kind == 2) W.P[i].vtmf.reset(new BarnettSmartVTMF_dlog_GroupQR(gin, fs_i, ss_i));
+		else W.P[i].vtmf.reset(new BarnettSmartVTMF_dlog(gin, fs_i, ss_i, W.G->kind == 1));
 		{
-			if (!W.P[i].vtmf->CheckGroup()) { W.violate("C03", "group_rejected", "published pool group refused by CheckGroup"); return W.res; }
+			if (!W.P[i].vtmf->CheckGroup()) { W.violate(msz ? "C11" : "C03", msz ? "roundtrip_group_check" : "group_rejected", "published pool group refused by CheckGroup of player " + std::to_string(i) + " (minimum sizes " + std::to_string(fs_i) + "/" + std::to_string(ss_i) + ")"); return W.res; }
 			// C11 wire monitor for the group
 			std::ostringstream o2; W.P[i].vtmf->PublishGroup(o2);
-			if (o2.str() != W.G->text) W.violate("C11", "roundtrip_text_group", "PublishGroup after the stream constructor differs from the published text");
+			if (o2.str() != W.G->text) { W.violate("C11", "roundtrip_text_group", "PublishGroup after the stream constructor (minimum sizes " + std::to_string(fs_i) + "/" + std::to_string(ss_i) + ") differs from the published text"); return W.res; }
 		}
 		W.P[i].vtmf->KeyGenerationProtocol_GenerateKey();
 		W.P[i].tmcg.reset(new SchindelhauerTMCG(W.kappa, W.k, W.w));
@@ -1051,6 +1056,7 @@ static void cards_shrink_more(const Plan &plan, std::vector<Plan> &out)
 {
 	if (plan.get("k", 2) > 2) { Plan q = plan; q.cfg["k"] = plan.get("k", 2) - 1; out.push_back(q); }
 	if (plan.get("chunked", 0)) { Plan q = plan; q.cfg["chunked"] = 0; out.push_back(q); }
+	if (plan.get("minsz", 0)) { Plan q = plan; q.cfg["minsz"] = 0; out.push_back(q); }
 	if (plan.get("kappa", 0) > 1) { Plan q = plan; q.cfg["kappa"] = plan.get("kappa", 0) / 2; out.push_back(q); }
 	if (plan.get("w", 1) > 1) { Plan q = plan; q.cfg["w"] = plan.get("w", 1) - 1; out.push_back(q); }
 	if (plan.get("group", 0) != 0) { Plan q = plan; q.cfg["group"] = 0; out.push_back(q); }
